@@ -16,6 +16,8 @@ Inductive view :=
 
 Inductive lpc := LS0 | LSel1 | LSel2 | LSel3 | LDrain | LRetNone | LRetSome.
 
+Inductive life := NeverReg | Reg | Removed.
+
 Record local := mkL {
   l_view : view;
   l_todo : bool;     (* j is among the matching subscribers the fan-out has not reached yet *)
@@ -24,15 +26,16 @@ Record local := mkL {
   l_ctx : bool;
   l_buf : bool;      (* done_j holds an error *)
   l_closed : bool;   (* done_j is closed *)
-  l_fail : bool      (* the loop recorded a failure for j *)
+  l_fail : bool;     (* the loop recorded a failure for j *)
+  l_life : life      (* registration history of j: never registered / registered once / removed *)
 }.
 
 Definition w_view (x : local) (v : view) : local :=
-  mkL v (l_todo x) (l_reg x) (l_pc x) (l_ctx x) (l_buf x) (l_closed x) (l_fail x).
+  mkL v (l_todo x) (l_reg x) (l_pc x) (l_ctx x) (l_buf x) (l_closed x) (l_fail x) (l_life x).
 Definition w_lpc (x : local) (v : lpc) : local :=
-  mkL (l_view x) (l_todo x) (l_reg x) v (l_ctx x) (l_buf x) (l_closed x) (l_fail x).
+  mkL (l_view x) (l_todo x) (l_reg x) v (l_ctx x) (l_buf x) (l_closed x) (l_fail x) (l_life x).
 Definition l_panic (x : local) : local :=
-  mkL VPanicked false (l_reg x) (l_pc x) (l_ctx x) (l_buf x) (l_closed x) (l_fail x).
+  mkL VPanicked false (l_reg x) (l_pc x) (l_ctx x) (l_buf x) (l_closed x) (l_fail x) (l_life x).
 
 (* kinds of steps, seen from j *)
 Inductive lk :=
@@ -52,16 +55,17 @@ Inductive lk :=
 | KReplay | KReplayedOk | KReplayedErr | KReplayedPanic | KReject | KRegA | KRegB.
 
 (* close(done_j) on the local view *)
-Definition l_close (x : local) (v : view) : option local :=
+Definition l_close (x : local) (v : view) (removal : bool) : option local :=
   if l_closed x then Some (l_panic x)
-  else Some (mkL v (l_todo x) (l_reg x) (l_pc x) (l_ctx x) (l_buf x) true (l_fail x)).
+  else Some (mkL v (l_todo x) (l_reg x) (l_pc x) (l_ctx x) (l_buf x) true (l_fail x)
+                 (if removal then Removed else l_life x)).
 (* done_j <- err *)
 Definition l_send (x : local) (k : local -> option local) : option local :=
   if l_closed x then Some (l_panic x)
   else if l_buf x then None
-  else k (mkL (l_view x) (l_todo x) (l_reg x) (l_pc x) (l_ctx x) true (l_closed x) true).
+  else k (mkL (l_view x) (l_todo x) (l_reg x) (l_pc x) (l_ctx x) true (l_closed x) true (l_life x)).
 Definition l_unreg (x : local) : local :=
-  mkL (l_view x) (l_todo x) false (l_pc x) (l_ctx x) (l_buf x) (l_closed x) (l_fail x).
+  mkL (l_view x) (l_todo x) false (l_pc x) (l_ctx x) (l_buf x) (l_closed x) (l_fail x) (l_life x).
 
 Definition lstep (k : lk) (x : local) : option local :=
   match k with
@@ -74,7 +78,7 @@ Definition lstep (k : lk) (x : local) : option local :=
   | KExit => match l_view x, l_reg x with VExiting, false => Some (w_view x VExited) | _, _ => None end
   | KErrs m =>
       match l_view x, l_todo x with
-      | VBusy, false => Some (mkL VBusy (l_reg x && m) (l_reg x) (l_pc x) (l_ctx x) (l_buf x) (l_closed x) (l_fail x))
+      | VBusy, false => Some (mkL VBusy (l_reg x && m) (l_reg x) (l_pc x) (l_ctx x) (l_buf x) (l_closed x) (l_fail x) (l_life x))
       | _, _ => None end
   | KEnter => match l_pc x with LS0 => Some (w_lpc x LSel1) | _ => None end
   | KClosed => match l_pc x with LSel1 => Some (w_lpc x LRetSome) | _ => None end
@@ -83,34 +87,36 @@ Definition lstep (k : lk) (x : local) : option local :=
                 | _, _ => None end
   | KDone => match l_pc x with
              | LSel2 | LSel3 | LDrain =>
-                 if l_buf x then Some (mkL (l_view x) (l_todo x) (l_reg x) LRetSome (l_ctx x) false (l_closed x) (l_fail x))
+                 if l_buf x then Some (mkL (l_view x) (l_todo x) (l_reg x) LRetSome (l_ctx x) false (l_closed x) (l_fail x) (l_life x))
                  else if l_closed x then Some (w_lpc x LRetNone) else None
              | _ => None end
   | KCtx => match l_pc x with LSel2 => if l_ctx x then Some (w_lpc x LSel3) else None | _ => None end
   | KUnsub => match l_pc x, l_view x with
               | LSel3, VIdle => Some (w_view (w_lpc x LDrain) VGotUnsub)
               | _, _ => None end
-  | KCancel => Some (mkL (l_view x) (l_todo x) (l_reg x) (l_pc x) true (l_buf x) (l_closed x) (l_fail x))
+  | KCancel => Some (mkL (l_view x) (l_todo x) (l_reg x) (l_pc x) true (l_buf x) (l_closed x) (l_fail x) (l_life x))
   | KSend ok =>
       match l_view x, l_todo x with
-      | VBusy, true => Some (mkL (if ok then VFlushing else VFailing) false (l_reg x) (l_pc x) (l_ctx x) (l_buf x) (l_closed x) (l_fail x))
+      | VBusy, true => Some (mkL (if ok then VFlushing else VFailing) false (l_reg x) (l_pc x) (l_ctx x) (l_buf x) (l_closed x) (l_fail x) (l_life x))
       | _, _ => None end
   | KFlush ok => match l_view x with VFlushing => Some (w_view x (if ok then VBusy else VFailing)) | _ => None end
   | KFail => match l_view x with VFailing => l_send x (fun y => Some (w_view y VRemoving)) | _ => None end
-  | KRemoveFan => match l_view x, l_reg x with VRemoving, true => l_close (l_unreg x) VBusy | _, _ => None end
-  | KRemoveUnsub => match l_view x, l_reg x with VGotUnsub, true => l_close (l_unreg x) VTop | _, _ => None end
-  | KRemoveExit => match l_view x, l_reg x with VExiting, true => l_close (l_unreg x) VExiting | _, _ => None end
+  | KRemoveFan => match l_view x, l_reg x with VRemoving, true => l_close (l_unreg x) VBusy true | _, _ => None end
+  | KRemoveUnsub => match l_view x, l_reg x with VGotUnsub, true => l_close (l_unreg x) VTop true | _, _ => None end
+  | KRemoveExit => match l_view x, l_reg x with VExiting, true => l_close (l_unreg x) VExiting true | _, _ => None end
   | KSkipFan => match l_view x, l_reg x with VRemoving, false => Some (w_view x VBusy) | _, _ => None end
   | KSkipUnsub => match l_view x, l_reg x with VGotUnsub, false => Some (w_view x VTop) | _, _ => None end
   | KReplay => match l_view x with VGotSub => Some (w_view x VReplaying) | _ => None end
   | KReplayedOk | KReplayedPanic => match l_view x with VReplaying => Some (w_view x VRegistering) | _ => None end
   | KReplayedErr => match l_view x with VReplaying => Some (w_view x VRejecting) | _ => None end
-  | KReject => match l_view x with VRejecting => l_send x (fun y => l_close y VTop) | _ => None end
+  | KReject => match l_view x with VRejecting => l_send x (fun y => l_close y VTop false) | _ => None end
   | KRegA => match l_view x with
-             | VRegistering => Some (mkL VTop (l_todo x) true (l_pc x) (l_ctx x) (l_buf x) (l_closed x) (l_fail x))
+             | VRegistering => Some (mkL VTop (l_todo x) true (l_pc x) (l_ctx x) (l_buf x) (l_closed x) (l_fail x)
+                                      (match l_life x with Removed => Removed | _ => Reg end))
              | _ => None end
   | KRegB => match l_view x with
-             | VGotSub => Some (mkL VTop (l_todo x) true (l_pc x) (l_ctx x) (l_buf x) (l_closed x) (l_fail x))
+             | VGotSub => Some (mkL VTop (l_todo x) true (l_pc x) (l_ctx x) (l_buf x) (l_closed x) (l_fail x)
+                                      (match l_life x with Removed => Removed | _ => Reg end))
              | _ => None end
   end.
 
@@ -127,6 +133,8 @@ Definition lpc_eqb (a b : lpc) : bool :=
   | LS0, LS0 | LSel1, LSel1 | LSel2, LSel2 | LSel3, LSel3 | LDrain, LDrain | LRetNone, LRetNone | LRetSome, LRetSome => true
   | _, _ => false end.
 
+Definition life_eqb (a b : life) : bool :=
+  match a, b with NeverReg, NeverReg | Reg, Reg | Removed, Removed => true | _, _ => false end.
 Definition v_in (v : view) (l : list view) : bool := existsb (view_eqb v) l.
 Definition p_in (v : lpc) (l : list lpc) : bool := existsb (lpc_eqb v) l.
 
@@ -165,7 +173,11 @@ Definition ok (x : local) : bool :=
   && implb (p_in p waiting_pc) (r || d || v_in v subscribing)
   && implb (view_eqb v VRemoving && negb r) d
   (* after the loop has exited nobody is registered *)
-  && implb (view_eqb v VExited) (negb r).
+  && implb (view_eqb v VExited) (negb r)
+  && implb (view_eqb v VGotUnsub) (l_ctx x)
+  (* registered exactly between the registration and the removal; registered at most once *)
+  && Bool.eqb r (life_eqb (l_life x) Reg)
+  && implb (v_in v subscribing || p_in p [LS0; LSel1]) (life_eqb (l_life x) NeverReg).
 
 (* ---- the finite sweep ----------------------------------------------------- *)
 Definition all_view : list view :=
@@ -173,9 +185,10 @@ Definition all_view : list view :=
    VGotUnsub; VExiting; VExited; VPanicked].
 Definition all_lpc : list lpc := [LS0; LSel1; LSel2; LSel3; LDrain; LRetNone; LRetSome].
 Definition all_bool : list bool := [true; false].
+Definition all_life : list life := [NeverReg; Reg; Removed].
 Definition all_local : list local :=
   flat_map (fun v => flat_map (fun t => flat_map (fun r => flat_map (fun p => flat_map (fun c =>
-  flat_map (fun b => flat_map (fun d => map (fun f => mkL v t r p c b d f) all_bool) all_bool) all_bool)
+  flat_map (fun b => flat_map (fun d => flat_map (fun f => map (fun g => mkL v t r p c b d f g) all_life) all_bool) all_bool) all_bool)
   all_bool) all_lpc) all_bool) all_bool) all_view.
 Definition all_lk : list lk :=
   [KNone; KIdleBusy; KTopIdle; KBusyIdle; KBusyTop; KIdleExiting; KExit; KErrs true; KErrs false;
@@ -186,7 +199,7 @@ Definition all_lk : list lk :=
 
 Lemma all_local_complete x : In x all_local.
 Proof.
-  destruct x as [v t r p c b d f]. unfold all_local.
+  destruct x as [v t r p c b d f g]. unfold all_local.
   apply in_flat_map; exists v; split; [destruct v; cbn; tauto|].
   apply in_flat_map; exists t; split; [destruct t; cbn; tauto|].
   apply in_flat_map; exists r; split; [destruct r; cbn; tauto|].
@@ -194,7 +207,8 @@ Proof.
   apply in_flat_map; exists c; split; [destruct c; cbn; tauto|].
   apply in_flat_map; exists b; split; [destruct b; cbn; tauto|].
   apply in_flat_map; exists d; split; [destruct d; cbn; tauto|].
-  apply in_map. destruct f; cbn; tauto.
+  apply in_flat_map; exists f; split; [destruct f; cbn; tauto|].
+  apply in_map. destruct g; cbn; tauto.
 Qed.
 
 Lemma all_lk_complete k : In k all_lk.
